@@ -280,7 +280,6 @@ func run(rc *kernel.RunCtx) {
 		return strings.TrimSuffix(b.String(), "\n")
 	}
 
-
 	// Plans: every task handles records on drawn handlers; a task may first
 	// derive a handler of its own (concurrently with the others).
 	type step struct {
